@@ -212,9 +212,17 @@ def run(ctx, search=False):
             xs = [rng.randint(0, 99) for _ in range(nn)]
             ccases.append({'op': 'chunked', 'xs': xs, 'c': c, 'gen': rng.random() < 0.5})
         mout = ctx.model.many([{'m': 'parmap', 'op': 'chunked', 'xs': cc['xs'], 'c': cc['c']} for cc in ccases])
-        for cc, mo in zip(ccases, mout):
+        for i, (cc, mo) in enumerate(zip(ccases, mout)):
             arg = iter(cc['xs']) if cc['gen'] else cc['xs']
-            got = [list(ch) for ch in it.chunked(arg, cc['c'])]
+            if i % 2 == 0:
+                # the caller keeps every chunk until the iteration is over (list(chunked(...)), zip over chunks, chunks handed
+                # on as work items): a chunk must not change after it was yielded
+                held = list(it.chunked(arg, cc['c']))
+                got = [list(ch) for ch in held]
+                ctx.count('chunked:held')
+            else:
+                got = [list(ch) for ch in it.chunked(arg, cc['c'])]
+                ctx.count('chunked:streamed')
             ctx.case(cc, nontrivial=len(cc['xs']) > cc['c'])
             ctx.count('chunked')
             if {'chunks': got} != mo:
